@@ -91,6 +91,23 @@ def job_parseval(res, n, N=4):
     # the Nyquist and upper bins: spectrum above N/2 is zero, the Nyquist bin carries Re Z_{N/2} |F_{N/2}|^2 but does not enter the wake
     prove(res, 'n=%d N=%d: unscaled wake does not depend on the Nyquist/upper impedance samples' % (n, N), st.pc, z3.Or(*[z3.substitute(w, *[(c, z3.Real(str(c) + 'a')) for k in range(N // 2, N) for c in Z[k]]) != w for w in wt]), key='wake-upper-half-unused')
 
+def job_stored_intensity(res, n, N, spacing, buckets):
+    """C10's clause "the stored CSR intensity is the sum of the stored spectrum": HDF5File stores bins 0 .. N/2-1 of every bunch's spectrum row (C10 append summaries) and the intensity updateCSR
+    computed; so intensity[b] must equal delta_f * sum_{k < N/2} spectrum[b][k] for every profile and every impedance"""
+    bld = field_build(); mod = load_module(bld, FIELD_MODS)
+    snap, R, pre, plans, calib = field_world(bld, n, N, spacing, buckets, 0)
+    nb = len(buckets)
+    fft = UFFFT(plans); ex = Exec(mod, snap, RealDom(), {'fftwf_execute': fft}); st = State()
+    P = sym_profiles(ex, st, R, n, nb); Z = sym_impedance(ex, st, R, N)
+    dq = Fraction(f32(f32(12.0) / f32(n - 1))); fmax = Fraction(f32(1.0 / float(dq))); df = Fraction(f32(float(fmax) / f32(N - 1)))
+    for s1 in run_paths(ex, st, 'e_csr', [R['field'], Fraction(0)]):
+        account(res, ex, mod, [s1])
+        spec = get_reals(ex, s1, s1.retval, nb * N); pw = get_reals(ex, s1, ex.run1(s1, 'e_csrpower', [R['field']]).retval, nb)
+        bad = [pw[b] != sum([df * spec[b * N + k] for k in range(N // 2)], z3.RealVal(0)) for b in range(nb)]
+        def cex(m): return {'replay': 'csr', 'what': 'stored-intensity', 'n': n, 'N': N, 'spacing': spacing, 'buckets': list(buckets), 'rho': [mval(m, v) for v in P], 'z': [mval(m, c) for zz in Z for c in zz], 'freq_delta': float(R['freq_delta'])}
+        prove(res, 'n=%d N=%d buckets %s: CSR intensity[b] == delta_f * sum of the %d spectrum bins of bunch b that the results file stores (k < N/2)' % (n, N, list(buckets), N // 2), list(s1.pc) + [Z[k][0] >= 0 for k in range(N)], z3.Or(*bad),
+              key='stored-intensity-sum', cex_fn=cex)
+
 def replayer(bld):
     def rp(path, c):
         if c.get('replay') != 'csr': return (True, 'algebraic identity over the real kernels: %s' % str(c)[:200])
@@ -100,6 +117,12 @@ def replayer(bld):
         if c.get('wake_first'):
             o = native_run(bld, {'n': n, 'N': N, 'spacing': sp, 'buckets': bk, 'ops': ['w', 'c'], 'prof0': [rr.uniform(0.1, 1) for _ in rho], 'prof1': rho, 'z': z, 'cutoff': 0.0}, 'c07')
         else: o = native_run(bld, {'n': n, 'N': N, 'spacing': sp, 'buckets': bk, 'ops': ['c'], 'prof0': rho, 'z': z, 'cutoff': 0.0}, 'c07')
+        if c.get('what') == 'stored-intensity':
+            o = native_run(bld, {'n': n, 'N': N, 'spacing': sp, 'buckets': bk, 'ops': ['c'], 'prof0': rho, 'z': z, 'cutoff': 0.0}, 'c07')
+            df = float(c['freq_delta']); worst = 0.0; sc = 1e-300
+            for b in range(nb):
+                tot = df * sum(o['csr'][b * N + k] for k in range(N // 2)); worst = max(worst, abs(o['csrpower'][b] - tot)); sc = max(sc, abs(o['csrpower'][b]))
+            return (worst > 1e-5 * sc, 'native: the CSR intensity of a bunch exceeds delta_f * (sum of the N/2 spectrum bins the file stores) by %.3g (intensity %.3g): the bin at N/2 is summed but not stored' % (worst, sc))
         if c.get('what') == 'intensity':
             # native: stored intensity of every bunch against the sum of that bunch's own stored spectrum
             if c.get('cutoff'): o = native_run(bld, {'n': n, 'N': N, 'spacing': sp, 'buckets': bk, 'ops': ['c'], 'prof0': rho, 'z': z, 'cutoff': float(c['cutoff'])}, 'c07')
